@@ -637,11 +637,14 @@ def run_real(progs: list, models: list, bear_every: int = 0) -> list:
             tmp = os.path.join(root, f'p{i}')
             os.mkdir(tmp)
             pl = payload_of(progs[i], models[i], tmp, bool(bear_every) and i % bear_every == 0)
-            try:
-                return subproc_json('harness.impl.c07run', pl, timeout=600,
-                                    env={'PYTHONDONTWRITEBYTECODE': '', 'PYTHONPYCACHEPREFIX': os.path.join(root, 'pyc')})
-            except Exception as e:                                  # noqa: BLE001
-                return {'worker_error': str(e)[-2000:]}
+            err = ''
+            for attempt in range(2):            # a worker killed by the machine (load, OOM) is retried once
+                try:
+                    return subproc_json('harness.impl.c07run', pl, timeout=900,
+                                        env={'PYTHONDONTWRITEBYTECODE': '', 'PYTHONPYCACHEPREFIX': os.path.join(root, 'pyc')})
+                except Exception as e:                              # noqa: BLE001
+                    err = f'attempt {attempt + 1}: {str(e)[-1500:]}'
+            return {'worker_error': err}
         with cf.ThreadPoolExecutor(max_workers=16) as ex:
             return list(ex.map(one, range(len(progs))))
     finally:
@@ -897,6 +900,11 @@ def evaluate(progs, models, reals, ex: Explore, stats: dict):
                         stats['cache_equal'] += rc == mcache
                         stats['cache_subset'] += rc != mcache
                 # ---- the property: the real vector is the vector of the SPECIFIED hint
+                if mc['spec'] == ['unres', []]:
+                    # Python itself cannot evaluate the annotation here even with every name bound (an attribute that
+                    # does not exist on the object the name denotes): no specified hint to compare with
+                    stats['skipped_spec_undefined'] += 1
+                    continue
                 if pr.get('spec') is None:
                     ex.corr_diffs.append({'what': 'specified hint cannot be built', 'variant': v, 'tag': tag, 'term': mc['spec'],
                                           'error': pr.get('spec_err'), 'program': describe(p, v), 'stmts': p['stmts']})
@@ -1037,7 +1045,7 @@ RULE = ('generated programs: one @beartype-checked callable at module level / in
 
 def new_stats() -> dict:
     return {'programs': 0, 'placements': {}, 'shapes': {}, 'ends': {}, 'outcomes': {}, 'deviations': {}, 'invisible_deviations': 0,
-            'cache_equal': 0, 'cache_subset': 0, 'skipped_lazy_ambiguous': 0, 'nontrivial': set()}
+            'cache_equal': 0, 'cache_subset': 0, 'skipped_lazy_ambiguous': 0, 'skipped_spec_undefined': 0, 'nontrivial': set()}
 
 
 def explore(ck: Check, n: int, seed: int, with_corpus: bool = True, bear_every: int = 0, full: bool = False) -> Explore:
@@ -1054,6 +1062,7 @@ def explore(ck: Check, n: int, seed: int, with_corpus: bool = True, bear_every: 
     evaluate(progs, models, reals, ex, stats)
     bear_tie(progs, models, reals, ex, stats)
     source_tie(progs, ex, stats)
+    printer_tie(progs, ex, stats)
     stats['wall_model_s'], stats['wall_real_s'], stats['wall_oracles_s'] = round(t1 - t0, 1), round(t2 - t1, 1), round(time.time() - t2, 1)
     if ck is not None:
         ck.log(f'[C07] explore: {len(progs)} programs; model {t1 - t0:.0f}s, real {t2 - t1:.0f}s, oracles+bear {time.time() - t2:.0f}s; '
@@ -1182,6 +1191,69 @@ def source_tie(progs, ex: Explore, stats: dict):
                     ex.corr_diffs.append({'what': 'printed annotation does not parse back to the expression', 'expr': e,
                                           'text': render(e) if isinstance(e[0], str) else None})
     stats['printed_annotations_parsed_back'] = n
+
+
+def py_tokens(text: str) -> list:
+    """CPython's tokenizer on an annotation text, in the vocabulary of the Lean printer"""
+    import ast
+    import io
+    import tokenize
+    ops = {'.': 'dot', '[': 'lbr', ']': 'rbr', ',': 'comma', '|': 'bar', '(': 'lpar', ')': 'rpar'}
+    out = []
+    for tok in tokenize.generate_tokens(io.StringIO(text).readline):
+        if tok.type in (tokenize.NEWLINE, tokenize.NL, tokenize.ENDMARKER, tokenize.INDENT, tokenize.DEDENT):
+            continue
+        if tok.type == tokenize.NAME:
+            out.append({'None': ['lit', 'none'], 'True': ['lit', ['b', 'true']], 'False': ['lit', ['b', 'false']]}.get(
+                tok.string, ['id', tok.string]))
+        elif tok.type == tokenize.NUMBER:
+            out.append(['lit', ['i', tok.string]])
+        elif tok.type == tokenize.STRING:
+            out.append(['S', py_tokens(ast.literal_eval(tok.string))])
+        elif tok.type == tokenize.OP and tok.string == '...':
+            out.append(['lit', 'ellipsis'])
+        elif tok.type == tokenize.OP and tok.string in ops:
+            out.append(ops[tok.string])
+        else:
+            out.append(['?', tok.string])
+    return out
+
+
+def lean_tokens(ts) -> list:
+    out = []
+    for t in ts:
+        if isinstance(t, str):
+            out.append(t)
+        elif t[0] == 'str':
+            out.append(['S', lean_tokens(t[1])])
+        elif t[0] == 'lit' and isinstance(t[1], list) and t[1][0] == 'str':
+            out.append(['S', py_tokens(t[1][1])])
+        else:
+            out.append(t)
+    return out
+
+
+def printer_tie(progs, ex: Explore, stats: dict):
+    """the Lean printer `showE` against CPython's tokenizer on the text the programs really contain; the driver also
+    reports that the model's parser reads its own output back (C07_show_parse, re-checked on concrete inputs)"""
+    seen: dict = {}
+    for p in progs:
+        for st in all_defs(p['stmts']):
+            for v in VARIANTS:
+                e = variant_expr(st[3], v)
+                seen.setdefault(json.dumps(e), e)
+    exprs = list(seen.values())
+    res = lean_driver([sexp(['c07', 'show', expr_sx(e)]) for e in exprs], 'C07')
+    for e, line in zip(exprs, res):
+        r = parse_sexp(line)
+        if r[0] != 'ok':
+            ex.corr_diffs.append({'what': 'model printer refuses an annotation', 'expr': e})
+            continue
+        toks, back = r[1]
+        if lean_tokens(toks) != py_tokens(render(e)) or back != 'roundtrip':
+            ex.corr_diffs.append({'what': 'model printer and CPython tokenizer disagree on an annotation', 'expr': e, 'text': render(e),
+                                  'model_tokens': lean_tokens(toks), 'python_tokens': py_tokens(render(e)), 'model_parser': back})
+    stats['annotations_tokenised_like_the_model'] = len(exprs)
 
 
 def all_defs(stmts):
@@ -1505,6 +1577,7 @@ def replay(data: dict) -> int:
         print('probe not reached:', det)
         return 0
     objs = objspecs_of(prog['stmts'])
+    print('verdicts: A = accepted, R = BeartypeCallHintViolation, F = beartype forward-reference exception, X:<cls> = other exception')
     print(f'probe {tag}, variant {variant}: hint checked by the implementation (model): {det["impl"]}')
     print(f'                                 hint the annotation denotes (specification): {det["spec"]}')
     for d, oi, a, e in det['bads'][:8]:
@@ -1522,21 +1595,29 @@ def replay(data: dict) -> int:
 def main(ck: Check) -> int:
     quick = ck.tier == 'quick'
     proof = ck.prove(MODULE, PROP_FILE)
-    ex = explore(ck, n=110 if quick else 2000, seed=ck.seed, bear_every=6 if quick else 4, full=not quick)
+    ex = explore(ck, n=110 if quick else 1600, seed=ck.seed, bear_every=6 if quick else 8, full=not quick)
     canonicalise(ex)
     ck.decide(proof, ex, deep_search=lambda: deep(ck))
     ck.evidence(proof, ex,
-                level_note='PARTIAL: the theorems cover the resolution LOGIC (scope layering, proxy state machine, histories); frame '
-                           'introspection, eval of strings and the check of the resolved hint are modelled (environment abstraction, '
-                           'Bear core) and tied behaviourally on every run',
+                level_note='PARTIAL: the theorems cover the resolution LOGIC of the model (scope layering, proxy state machine, '
+                           'module-level histories, printer/parser round trip); partial theorems: C07_late_partial (module level, up '
+                           'to the through-a-proxy marker), C07_scope_python_nested_partial (name not bound in a farther enclosing '
+                           'function), C07_unresolved_raises_then_recovers_partial (frameless proxy or running parent) - each with a '
+                           'decided _counterexample that is also a known finding. Frame introspection, eval of strings and the check '
+                           'of the resolved hint are modelled (environment abstraction, Bear core) and tied behaviourally on every run',
                 assumptions=['single module; names are rebound at most once (a rebinding after a successful resolution is not modelled)',
                              'CPython 3.12 only (PEP 649/749 lazily evaluated annotations are not exercised)',
-                             'a probe applies enough objects that every proxy of the hint is needed (the model forces all of them)',
-                             'proxies are identified by (decorated callable, dotted name, parent code object)'])
+                             'the model forces every proxy of a hint at every call; the real check is lazy: a run is no longer '
+                             'compared from the call on at which one proxy raises while another is resolved for the first time '
+                             '(counted as skipped_lazy_ambiguous)',
+                             'proxies are identified by (decorated callable, dotted name, parent code object)',
+                             'absolute dotted module paths in string annotations are not modelled',
+                             'the model is the code AFTER fixes/C07_frame_locals_copied.patch and '
+                             'fixes/C07_relative_dotted_forward_ref.patch'])
     return ck.finish()
 
 
 def deep(ck: Check) -> Explore:
-    ex = explore(ck, n=1200, seed=ck.seed + 1, bear_every=0)
+    ex = explore(ck, n=400, seed=ck.seed + 1, bear_every=0, full=True)
     canonicalise(ex)
     return ex
